@@ -199,6 +199,13 @@ class IkeSaController:
                         self.ike_sas.remove(ikesa)
                         logging.info('Deleted IKE_SA {}. Count={}'.format(ikesa, len(self.ike_sas)))
 
+                # serve the events that were queued while an IKE_SA was busy (and handed over to its successor)
+                for ikesa in self.ike_sas:
+                    request_data = ikesa.check_pending_events()
+                    if request_data:
+                        dst_addr = (str(ikesa.peer_addr), 500)
+                        udp_sockets[ikesa.my_addr].sendto(request_data, dst_addr)
+
                 # start DPD
                 for ikesa in self.ike_sas:
                     request_data = ikesa.check_dead_peer_detection_timer()
